@@ -211,6 +211,10 @@ func (c *EvalCtx) eval(e Expr, want *Sort) (Val, error) {
 		if fn, ok := x.w.specs.Fns[n.Name]; ok && len(fn.Params) == 0 {
 			return c.callSpecFn(fn, nil)
 		}
+		if v, ok := x.atCallArgs[n.Name]; ok {
+			// inside an `at call` clause: a parameter name of the callee denotes the argument passed
+			return v, nil
+		}
 		return Val{}, c.errf("unknown identifier %q", n.Name)
 	case EUnary:
 		switch n.Op {
